@@ -174,9 +174,9 @@ type Event struct {
 func (e Event) String() string { return fmt.Sprintf("%s(%d)", e.Kind, e.N) }
 
 type config struct {
-	Style     string          `json:"addrStyle"`
-	Pref      client.ReadPref `json:"readPref"`
-	Discovery bool            `json:"discovery"`
+	Style      string          `json:"addrStyle"`
+	Pref       client.ReadPref `json:"readPref"`
+	Discovery  bool            `json:"discovery"`
 	Health     bool            `json:"healthChecks"`
 	ShardOrder int             `json:"shardOrder"`
 }
@@ -507,6 +507,12 @@ func probe(r *ev.Run, cf config, path []Event) {
 		if prim != "" && !strings.HasSuffix(prim, "(dead)") {
 			canAct = true
 		}
+	}
+	// ... and if the nodes answer the discovery request at all: a world in which every node refuses
+	// /info/shards gives a client whose believed primary is dead or unknown nothing to converge with (found by the thorough tier at depth 5,
+	// where the check first raised this as a false alarm)
+	if s.w.fail4xx && (strings.HasSuffix(prim, "(dead)") || prim == "") {
+		canAct = false
 	}
 	if allUp && s.w.leader >= 0 && canAct {
 		s.call("add")
